@@ -312,6 +312,14 @@ fn documents(thorough: bool) -> (Vec<String>, Vec<String>) {
         docs.push(format!("{}9000 PRINT QQ", "PRINT 1\n".repeat(k)));
         docs.push(format!("{}9000 PRINT \"\u{e9}\" + 1", "10 X$ = 1\n".repeat(k)));
     }
+    // long runs of multi-byte characters at every alignment: whatever fixed byte offset a server
+    // cuts a preview, a log line or a buffer at, some document has a character across it
+    for (ch, w) in [("\u{e9}", 2usize), ("\u{65e5}", 3), ("\u{1f60a}", 4)] {
+        for pad in 0..w {
+            docs.push(format!("10 REM {}{}", "x".repeat(pad), ch.repeat(1200 / w)));
+            docs.push(format!("10 X = 1\n20 PRINT \"{}{}\" + 1", "x".repeat(pad), ch.repeat(1200 / w)));
+        }
+    }
     let core: Vec<String> = menu
         .iter()
         .take(22)
